@@ -126,3 +126,80 @@ func VerifFinalHashPreimage(imports [][]uint32, dynamic [][]bool, assets [][]str
 	c.appendIsolatedHashesForImportedChunks(h, chunkIndex, visited, ^uint32(chunkIndex))
 	return h.data
 }
+
+// VerifIsoFile is one entry of c.graph.Files as far as generateIsolatedHash reads it.
+type VerifIsoFile struct {
+	Namespace string // Source.KeyPath.Namespace
+	KeyText   string // Source.KeyPath.Text
+	PrettyRel string // Source.PrettyPaths.Rel
+}
+
+// VerifIsoChunk is a hand-built chunk as far as generateIsolatedHash reads it.
+type VerifIsoChunk struct {
+	IsCSS      bool
+	Parts      [][3]uint32 // partsInChunkInOrder: sourceIndex, partIndexBegin, partIndexEnd
+	Template   []string    // finalTemplate[i].Data (every part but the last carries the hash placeholder)
+	PiecesNil  bool        // intermediateOutput.pieces == nil: the joiner holds the output
+	Pieces     []VerifPiece
+	Joiner     [][]byte // byte strings added to the joiner one after the other
+	SMPrefix   []byte
+	SMMappings []byte
+	SMSuffix   []byte
+	Legal      []byte
+}
+
+// VerifIsolatedHash runs the real generateIsolatedHash on a hand-built chunk and returns the digest it
+// sends (hash.Sum(nil) of the xxhash it created). With parallel = true it goes through
+// generateIsolatedHashInParallel and reads waitForIsolatedHash twice (the second read must repeat the
+// first); with parallel = false the routine runs on the calling goroutine so that a panic can be recovered.
+func VerifIsolatedHash(files []VerifIsoFile, publicPath string, ch VerifIsoChunk, parallel bool) []byte {
+	c := &linkerContext{options: &config.Options{PublicPath: publicPath}}
+	c.graph.Files = make([]graph.LinkerFile, len(files))
+	for i, f := range files {
+		c.graph.Files[i].InputFile.Source.KeyPath.Namespace = f.Namespace
+		c.graph.Files[i].InputFile.Source.KeyPath.Text = f.KeyText
+		c.graph.Files[i].InputFile.Source.PrettyPaths.Rel = f.PrettyRel
+	}
+	chunk := &chunkInfo{}
+	if ch.IsCSS {
+		chunk.chunkRepr = &chunkReprCSS{}
+	} else {
+		repr := &chunkReprJS{}
+		for _, p := range ch.Parts {
+			repr.partsInChunkInOrder = append(repr.partsInChunkInOrder, partRange{sourceIndex: p[0], partIndexBegin: p[1], partIndexEnd: p[2]})
+		}
+		chunk.chunkRepr = repr
+	}
+	for i, data := range ch.Template {
+		part := config.PathTemplate{Data: data}
+		if i+1 < len(ch.Template) {
+			part.Placeholder = config.HashPlaceholder
+		}
+		chunk.finalTemplate = append(chunk.finalTemplate, part)
+	}
+	if ch.PiecesNil {
+		for _, b := range ch.Joiner {
+			chunk.intermediateOutput.joiner.AddBytes(b)
+		}
+	} else {
+		chunk.intermediateOutput.pieces = []outputPiece{}
+		for _, p := range ch.Pieces {
+			chunk.intermediateOutput.pieces = append(chunk.intermediateOutput.pieces,
+				outputPiece{data: p.Data, index: p.Index, kind: outputPieceIndexKind(p.Kind)})
+		}
+	}
+	chunk.outputSourceMap = sourcemap.SourceMapPieces{Prefix: ch.SMPrefix, Mappings: ch.SMMappings, Suffix: ch.SMSuffix}
+	chunk.externalLegalComments = ch.Legal
+	if parallel {
+		c.generateIsolatedHashInParallel(chunk)
+		first := append([]byte{}, chunk.waitForIsolatedHash()...)
+		second := chunk.waitForIsolatedHash()
+		if string(first) != string(second) {
+			panic("waitForIsolatedHash is not repeatable")
+		}
+		return second
+	}
+	channel := make(chan []byte, 1)
+	c.generateIsolatedHash(chunk, channel)
+	return <-channel
+}
